@@ -348,6 +348,7 @@ def norm_static_name(dem):
     while prev != n:
         prev = n
         n = re.sub(r"\([^()]*\)", "", n)
+    n = re.sub(r"\[abi:[^\]]*\]", "", n)
     return re.sub(r"\s+", "", n)
 
 
@@ -823,6 +824,15 @@ def run(chk, replay=None):
                        % (len(recs["V"]), len(static_bad)), not static_bad)
     chk.add_obligation("extractor coverage: every operation the property names has a summary over all its overloads (%d methods%s)"
                        % (len(NAMED_BODIES), "" if not named_missing else "; missing: " + ", ".join(named_missing)), not named_missing)
+    inv_failed = summary.get("static_tus_failed") or []
+    if inv_failed:
+        p_ = chk.write_replay("static_inventory_incomplete.txt", "translation units that could not be compiled for the static-storage "
+                              "inventory (their static variables are NOT inventoried): %s\n" % ", ".join(inv_failed))
+        chk.violation(p_, "C08 static-storage inventory incomplete: %s did not compile - obligation C08_static_storage_checked is "
+                          "not discharged for them" % ", ".join(inv_failed), no_input=True)
+    chk.add_obligation("static-storage inventory complete: all %d translation units of base, net, poller, http, protobuf, protorpc "
+                       "compiled (%d variables)%s" % (len(summary.get("static_tus") or []), len(summary.get("statics") or {}),
+                                                      "" if not inv_failed else "; FAILED: " + ", ".join(inv_failed)), not inv_failed)
     chk.add_obligation("TSan suite: every report is explained by a recorded finding (%d scenarios, %d reports on %d members)"
                        % (len(ran), sum(d["count"] for d in reports.values()), len(reports)), not tsan_bad and not scen_fail)
     chk.add_obligation("fail-fast suite: %d confined operations abort off-thread, control call returns" % len(ffops), not ff_bad)
